@@ -243,7 +243,7 @@ def rewrite(rng, text, kind, keys_caseless):
                 body = s[1:-1].rstrip()
                 body = body[:-1].rstrip()           # drop the '/'
                 t = body.split()[0]
-                lines[i:i + 1] = ["<%s>" % body, "</%s>" % t]
+                lines[i:i + 1] = ["<%s%s>" % (body, " " if body.endswith("/") else ""), "</%s>" % t]
                 return join(lines), True, dep[i]
             # find the matching closer: only blank/comment lines may sit between
             j = i + 1
